@@ -238,6 +238,19 @@ type Rel struct {
 var sym5 = ast.NewInt(5)
 var sym6 = ast.NewInt(6)
 
+// The argument slice of a variadic combinator belongs to the caller, who may reuse it as soon as the combinator has returned
+// its goal: the harness always does, overwriting every entry with a goal that binds the first query variable to a sentinel.
+var poisonGoal micro.Goal = micro.EqualO(micro.Var(0), ast.NewSymbol("POISON-argument-slice-read-after-return"))
+
+func scribble(gs []micro.Goal) {
+	for i := range gs {
+		gs[i] = poisonGoal
+	}
+}
+
+// libGoals: build nevero / alwayso as the library's exported micro.NeverO / micro.AlwaysO (same cell traces as the relations below)
+var libGoals bool
+
 // the relation library used by the generated programs
 var relLib = []*Rel{
 	/*0*/ {"nevero", 0, gZzz(gCall(0))},
@@ -301,6 +314,12 @@ func build(g *G, env []*ast.SExpr) micro.Goal {
 			args[i] = a.close(env)
 		}
 		rel := relLib[g.R]
+		if libGoals && rel.Name == "nevero" {
+			return micro.NeverO
+		}
+		if libGoals && rel.Name == "alwayso" {
+			return micro.AlwaysO
+		}
 		// the recursive call is eta-expanded, as in the repository's own relations (fives, veryRecursiveO):
 		// the body is only built when the goal is applied to a state
 		return func(s *micro.State) *micro.StreamOfStates {
@@ -318,12 +337,14 @@ func build(g *G, env []*ast.SExpr) micro.Goal {
 		return libRels[g.Lib].Build(args, g.F)
 	case "conjplus":
 		gs := buildAll(g.Gs, env)
+		defer scribble(gs)
 		if g.Z {
 			return mini.ConjPlus(gs...)
 		}
 		return mini.ConjPlusNoZzz(gs...)
 	case "disjplus":
 		gs := buildAll(g.Gs, env)
+		defer scribble(gs)
 		if g.Z {
 			return mini.DisjPlus(gs...)
 		}
@@ -332,7 +353,13 @@ func build(g *G, env []*ast.SExpr) micro.Goal {
 		gss := make([][]micro.Goal, len(g.Gss))
 		for i, gs := range g.Gss {
 			gss[i] = buildAll(gs, env)
+			defer scribble(gss[i])
 		}
+		defer func() {
+			for i := range gss {
+				gss[i] = []micro.Goal{poisonGoal}
+			}
+		}()
 		return mini.Conde(gss...)
 	case "ifte":
 		return mini.IfThenElseO(build(g.Gs[0], env), build(g.Gs[1], env), build(g.Gs[2], env))
